@@ -236,6 +236,12 @@ def assemble_fn(unit, spec, idx, raw, counts):
         counts["proof_hints"] = counts.get("proof_hints", 0) + 1
     # declared textual substitutions (each must apply the stated number of times)
     for sub in spec.get("subst", []):
+        if sub.get("regex"):
+            text, n = re.subn(sub["from"], sub["to"], text)
+            if n != sub.get("count", 1):
+                raise Undecided("anchor lost: substitution /%s/ applies %d times in %s (expected %d)" % (sub["from"], n, spec["path"], sub.get("count", 1)))
+            counts["subst:" + sub.get("why", sub["from"])] = counts.get("subst:" + sub.get("why", sub["from"]), 0) + n
+            continue
         n = text.count(sub["from"])
         if n != sub.get("count", 1):
             raise Undecided("anchor lost: substitution %r applies %d times in %s (expected %d)" % (sub["from"], n, spec["path"], sub.get("count", 1)))
